@@ -36,7 +36,7 @@ def consumed (C : Ctx Pt) (tape : Bytes) : Nat :=
       if v = 0 ∨ v ≥ C.q then go i r.2 (n + C.no) else n + C.no
   go 65 tape 0
 
-def handle : List String → String
+def handle0 : List String → String
   | ["params", ci] =>
     match ctxOf ci, (parseNat ci).bind (std[·]?) with
     | some C, some s =>
@@ -143,5 +143,18 @@ def handle : List String → String
       else "bad-op"
     | _, _, _, _, _, _, _ => "bad-op"
   | _ => "bad-op"
+
+/-- adds the in-place placements of key transport: the functions are specified on VALUES, so
+`wrapip` (key and header inside the token buffer, modes 0..4) = `wrap`, `unwrapip` (key == token + no) = `unwrap` -/
+def handle : List String → String
+  | ["wrapip", ci, key, hdr, pub, tape, mode] =>
+    match parseNat mode with
+    | some m => if m ≤ 4 then handle0 ["wrap", ci, key, hdr, pub, tape] else "bad-op"
+    | none => "bad-op"
+  | ["unwrapip", ci, token, hdr, priv] =>
+    match parseHex token, ctxOf ci with
+    | some t, some C => if t.length < C.no then "bad-op" else handle0 ["unwrap", ci, token, hdr, priv]
+    | _, _ => "bad-op"
+  | args => handle0 args
 
 end Bee2V.C02.Drv
